@@ -217,6 +217,8 @@ def gen_enum(rng, idx):
     rng.shuffle(variants); variants = variants[:rng.randint(1, 5)]
     # raw identifiers as variant names (keywords, so that the `r#` cannot be dropped): unit, tuple-like and struct-like
     if idx % 3 == 0: variants.append(rng.choice(['r#type', 'r#match(i64)', f'r#loop {{ x: {T}, y: Option<String> }}']))
+    # variants named like the items the expansion itself refers to (the associated types Diff / DiffRef, the variant Replace of the diff enums)
+    if idx % 4 == 1: variants.append(rng.choice(['Diff', 'DiffRef(i64)', 'Replace(i64)', 'Diff(i64)']))
     if tp and not any('T' in v[1:] for v in variants): variants.append('B(T)' if not any(v.startswith('B') for v in variants) else 'G(T)')      # a declared parameter must be used (rustc E0392)
     # stratified: a lifetime (reference inside a generic argument, Cow), a const parameter (array length)
     elt = idx % 3 == 1; ecn = idx % 4 == 2
@@ -233,7 +235,7 @@ def gen_enum(rng, idx):
     gen_mk = '<' + ', '.join((["'a"] if elt else []) + (['T: Mk' + (' + Clone + PartialEq' if estyle == 'inline' else '')] if tp else []) + (['const N: usize'] if ecn else [])) + '>' if (tp or elt or ecn) else ''
     arms = []
     for k, v in enumerate(variants):
-        vn = re.match(r'r#\w+|\w', v).group(0)
+        vn = re.match(r'r#\w+|\w+', v).group(0)
         if v.startswith('K('): e = f"{name}::{vn}(Mk::mk(s), Mk::mk(s + 1), Mk::mk(s + 2))"
         elif v.startswith(('H(', 'J(')): e = f"{name}::{vn}(" + ('Mk::mk(s), Mk::mk(s + 1)' if "str>, i64" in v else 'Mk::mk(s)') + ")"
         elif '(' in v and v.endswith('()'): e = f"{name}::{vn}()"
@@ -332,6 +334,8 @@ KNOWN_BAD = {
          "#[derive(Debug, Clone, PartialEq, Difference)]\npub struct Inner { pub x: i64 }\n#[derive(Debug, Clone, PartialEq, Difference)]\n#[difference(expose)]\npub struct A { #[difference(recurse)] pub bc: Inner, #[difference(recurse)] pub o: Option<Inner> }\n#[derive(Debug, Clone, PartialEq, Difference)]\n#[difference(expose)]\npub struct Ab { #[difference(recurse)] pub c: Inner }\n#[derive(Debug, Clone, PartialEq, Difference)]\n#[difference(expose)]\npub struct Ao { #[difference(recurse)] pub d: Inner }\n"),
  'D23': ("a field of an associated type (item: T::Item) whose Clone bound is stated in the where clause: the conversion from the borrowed to the owned diff clones the value, and its impl did not repeat where-clause items",
          "pub trait Has { type Item; }\n#[derive(Debug, Clone, PartialEq)]\npub struct H;\nimpl Has for H { type Item = u8; }\n#[derive(Debug, Clone, PartialEq, Difference)]\npub struct D<T: Has + Clone + PartialEq + std::fmt::Debug> where T::Item: Clone + PartialEq + std::fmt::Debug { pub x: T, pub item: T::Item, pub n: u8 }\n"),
+ 'D24': ("an enum with a variant named Diff or DiffRef: inside the generated impl `Self::Diff` is ambiguous between the variant and the associated type",
+         "#[derive(Debug, Clone, PartialEq, Difference)]\npub enum D { Diff, Patch(u8), DiffRef { x: u8 } }\n"),
  'D7': ("trailing comma inside a difference attribute", "#[derive(Debug, Clone, PartialEq, Difference)]\npub struct D { #[difference(skip,)] pub f0: i64, pub f1: i64 }\n"),
  'D8': ("generic parameter used only behind a reference inside another type", "#[derive(Debug, Clone, PartialEq, Difference)]\npub struct D<'a, T> { pub o: Option<&'a T> }\n"),
  'D8b': ("generic parameter used only as the head of an associated-type path (same cause as D8: the used-parameter test compares the parameter's name with whole base strings)",
